@@ -1,6 +1,6 @@
 /* C09 correspondence, part 2: the real depackers' framing + integrity gates.
  *
- *   c09_gates <workdir> <casefile>         casefile lines:  <gzip|arc|arcfs|lzx> <hex of archive>
+ *   c09_gates <workdir> <casefile>         casefile lines:  <gzip|arc|arcfs|lzx|xz|zipf> <hex of archive>
  *
  * For every case the archive is written to <workdir>/case.bin, opened with hio_open (FILE
  * backed, as xmp_load_module does) and handed to the real `libxmp_depacker_<fmt>.depack`.
@@ -12,13 +12,20 @@
  *   unp <method> <bits> <outlen> <inhex> <ok> <outhex>  libxmp_arc_unpack
  *   lzu <method> <outlen> <inhex> <ok> <outhex>         lzx_unpack
  *   excl <namehex> <0|1>                                libxmp_exclude_match
+ *   inf <cap> <consumed-input hex> <outhex>             libxmp_tinfl_decompress calls of one zip member that
+ *                                                       ended with TINFL_STATUS_DONE (cap = output buffer size)
+ *   lz2 <props> <consumed-input hex> <piece hex>*       xz_dec_lzma2_reset + the xz_dec_lzma2_run calls of
+ *                                                       one Block that ended with XZ_STREAM_END
  *   <fmt> [<limit>] <filehex>                           the case, in the driver's syntax
  *   real none | real some <hex>                         what the real depacker answered
  */
 #include "vcommon.h"
+#include <unistd.h>
 #include "common.h"
 #include "hio.h"
 #include "depackers/depacker.h"
+#include "depackers/xz.h"
+#include "miniz.h"
 
 static FILE *spy;
 
@@ -76,6 +83,110 @@ int __wrap_libxmp_exclude_match(const char *name)
 	return r;
 }
 
+
+/* --- tinfl as called by miniz_zip.c (streaming, non-wrapping output buffer) --- */
+static unsigned char *ti_in;
+static size_t ti_in_len, ti_in_cap, ti_cap, ti_out;
+static int ti_live;
+
+tinfl_status __real_libxmp_tinfl_decompress(tinfl_decompressor *r, const mz_uint8 *in, size_t *in_size, mz_uint8 *out_start,
+					    mz_uint8 *out_next, size_t *out_size, const mz_uint32 flags);
+tinfl_status __wrap_libxmp_tinfl_decompress(tinfl_decompressor *r, const mz_uint8 *in, size_t *in_size, mz_uint8 *out_start,
+					    mz_uint8 *out_next, size_t *out_size, const mz_uint32 flags)
+{
+	int fresh = r->m_state == 0;
+	size_t cap0 = *out_size;
+	tinfl_status st = __real_libxmp_tinfl_decompress(r, in, in_size, out_start, out_next, out_size, flags);
+	if (!spy)
+		return st;
+	if (fresh) {
+		ti_live = 1;
+		ti_in_len = 0;
+		ti_out = 0;
+		ti_cap = cap0 + (size_t)(out_next - out_start);
+	}
+	if (ti_live) {
+		if (ti_in_len + *in_size > ti_in_cap) {
+			ti_in_cap = (ti_in_len + *in_size) * 2 + 64;
+			ti_in = (unsigned char *)realloc(ti_in, ti_in_cap);
+		}
+		memcpy(ti_in + ti_in_len, in, *in_size);
+		ti_in_len += *in_size;
+		ti_out = (size_t)(out_next - out_start) + *out_size;
+		if (st == TINFL_STATUS_DONE) {
+			fprintf(spy, "inf %lu ", (unsigned long)ti_cap);
+			put_hex(spy, ti_in, ti_in_len);
+			fputc(' ', spy);
+			put_hex(spy, out_start, ti_out);
+			fputc('\n', spy);
+			ti_live = 0;
+		} else if (st != TINFL_STATUS_NEEDS_MORE_INPUT) {
+			ti_live = 0;
+		}
+	}
+	return st;
+}
+
+/* --- LZMA2 decoder of the xz depacker: one `lz2` line per Block decoded to its end --- */
+struct xz_dec_lzma2;
+static int lz_props = -1;
+static unsigned char *lz_in;		/* compressed bytes consumed so far in this Block */
+static size_t lz_in_len, lz_in_cap;
+static char *lz_pieces;			/* " <hex>" per non-empty output piece */
+static size_t lz_pieces_len;
+static FILE *lz_pf;
+
+static void lz_drop(void)
+{
+	if (lz_pf) { fclose(lz_pf); lz_pf = NULL; }
+	free(lz_pieces); lz_pieces = NULL; lz_pieces_len = 0;
+	lz_in_len = 0;
+	lz_props = -1;
+}
+
+enum xz_ret __real_xz_dec_lzma2_reset(struct xz_dec_lzma2 *s, uint8 props);
+enum xz_ret __wrap_xz_dec_lzma2_reset(struct xz_dec_lzma2 *s, uint8 props)
+{
+	enum xz_ret r = __real_xz_dec_lzma2_reset(s, props);
+	lz_drop();
+	if (spy && r == XZ_OK) {
+		lz_props = props;
+		lz_pf = open_memstream(&lz_pieces, &lz_pieces_len);
+	}
+	return r;
+}
+
+enum xz_ret __real_xz_dec_lzma2_run(struct xz_dec_lzma2 *s, struct xz_buf *b);
+enum xz_ret __wrap_xz_dec_lzma2_run(struct xz_dec_lzma2 *s, struct xz_buf *b)
+{
+	size_t in0 = b->in_pos, out0 = b->out_pos;
+	enum xz_ret r = __real_xz_dec_lzma2_run(s, b);
+	if (spy && lz_props >= 0 && lz_pf) {
+		size_t n = b->in_pos - in0;
+		if (lz_in_len + n > lz_in_cap) {
+			lz_in_cap = (lz_in_len + n) * 2 + 64;
+			lz_in = (unsigned char *)realloc(lz_in, lz_in_cap);
+		}
+		memcpy(lz_in + lz_in_len, b->in + in0, n);
+		lz_in_len += n;
+		if (b->out_pos > out0) {
+			fputc(' ', lz_pf);
+			put_hex(lz_pf, b->out + out0, b->out_pos - out0);
+		}
+		if (r == XZ_STREAM_END) {
+			fflush(lz_pf);
+			fprintf(spy, "lz2 %d ", lz_props);
+			put_hex(spy, lz_in, lz_in_len);
+			fwrite(lz_pieces, 1, lz_pieces_len, spy);
+			fputc('\n', spy);
+			lz_drop();
+		} else if (r != XZ_OK) {
+			lz_drop();
+		}
+	}
+	return r;
+}
+
 int main(int argc, char **argv)
 {
 	char path[4096];
@@ -116,6 +227,8 @@ int main(int argc, char **argv)
 		else if (!strcmp(fmt, "arc")) d = &libxmp_depacker_arc;
 		else if (!strcmp(fmt, "arcfs")) d = &libxmp_depacker_arcfs;
 		else if (!strcmp(fmt, "lzx")) d = &libxmp_depacker_lzx;
+		else if (!strcmp(fmt, "xz")) { d = &libxmp_depacker_xz; with_limit = 0; }
+		else if (!strcmp(fmt, "zipf")) { d = &libxmp_depacker_zip; with_limit = 0; }
 		else continue;
 		n = get_hex(hex, &data);
 		if (n < 0)
